@@ -63,7 +63,7 @@ pub fn replay(property: &str, kind: &str, hist: &[String], path: &str) -> i32
         "c17" =>
         {
             use crate::c17::*;
-            let all = enabled17(3)(&[]);
+            let all = enabled17_all(3)(&[]);
             let mut h: Vec<Op17> = Vec::new();
             for s in hist
             {
